@@ -52,7 +52,7 @@ CLAIMS = {
  'C14': dict(technique='TLC model checking of AlgebraModel!RelabelIsIsomorphism on every enumerated configuration + TLC trace validation of relabel events (custom vs default-basis algebra), intrinsic reference for custom configurations, and mix events (rejection clause)',
              text='TLC checks that the map sending each named blade of a custom basis to (sorting parity) x the ascending blade of the default basis is an algebra isomorphism for every enumerated configuration; every operator is run in the custom algebra and, on relabelled operands, in the default algebra and TLC checks Phi(result) = result (duals up to the orientation of the custom pseudoscalar, C05); the same events are validated against the intrinsic reference; operands from algebras whose metric or basis differ must raise.',
              note=TB + 'All custom bases d=2 x 3 start indices, sampled d=3..5, 2DPGA/3DPGA/STAP; 28 operators; 17 configurations pairwise for rejection; algebras differing only in start index are not constrained (the repository tests treat them as equal). asmatrix under custom bases: C18.', ref='6 C14'),
- 'C15': dict(technique='TLC trace validation against ConstructModel (contract of every construction form and accessor; spelling parity from AlgebraModel, model-checked against the Clifford reference)',
+ 'C15': dict(technique='TLC model checking of ConstructModel (transcribed MultiVector.__new__ against the construction contract over a bounded input space; pinned-code rule refuted) + TLC trace validation of real constructions and accessor reads against the contract (spelling parity from AlgebraModel)',
              text='One algebra instance per configuration builds multivectors through 11 valid and 4 inconsistent construction forms and reads each back with every spelling (all permutations up to grade 3), items, containment, grade, asfullmv (both layouts), map and filter; TLC validates every event against the contract: denotation = sum parity x coefficient, nothing dropped or negated, inconsistent input raises.',
              note=TB + 'Coefficients are distinct signed primes; default and custom bases d<=5(6), graded mode.', ref='6 C15'),
  'C16': dict(technique='TLC trace validation against BroadcastModel: lane-wise operator semantics, frame condition of getitem/setitem on addressed positions, operand-kind resolution with order kept',
